@@ -17,12 +17,25 @@ RULE = ("arbitrary wire-valid query messages (packed by miekg/dns and unpacked a
         "per database (EDNS version 0 or none / other versions); plus a UDP class: a database with large record sets "
         "(14-16 NS with glue, TXT sets of 1-16 strings, 12 MX with addresses, a 300-byte TXT), 36 queries without EDNS / "
         "with EDNS sizes 0, 512, 600, 700-900, 1232, 4096, with and without client-subnet options (v4 /24, v6 /56, v6 /128, "
-        "behind a COOKIE) and DO, sent over a UDP and a TCP writer; non-trivial = distinct (database class, query name, "
-        "type, class, EDNS shape, response class)")
+        "behind a COOKIE) and DO, sent over a UDP and a TCP writer; plus a history class: handlers with the response cache "
+        "ENABLED (LRU 1024, or 2 for evictions) on 3 databases (quick), 6 questions each (declared names, descendants, zone "
+        "apexes, names below delegations, the root, other classes; name bytes, client, client-subnet option and max fixed per "
+        "question), queries asked one after the other: case +cache = warm-up (nothing | every question with a bad EDNS version "
+        "first | version 0 then a bad version), judged 4-6 queries per question in a row without OPT / with a version-0 OPT "
+        "bare, with the client-subnet option, with unknown options, with both, other ids, flags and opcodes (cold first, then "
+        "on the warm cache); case +cache+badvers = warm-up of version-0 / no-OPT queries (sometimes after a bad-version one), "
+        "judged the same questions with EDNS versions 1, 2, 255, random, bare / with the client-subnet option / with unknown "
+        "options / with both, some with another opcode, and two questions never asked before (cold); warm-up queries are "
+        "asked but not judged; non-trivial = distinct (database class, query name, type, class, EDNS shape, response class, "
+        "served from the cache or not)")
 TRUSTED_BASE = [
     "messages are wire-valid by construction (miekg Pack then Unpack); zero-question messages are not sent: fbserver/serve_mux.go answers them without calling the handler",
     "packability of the reply is observed on the implementation (Pack / Unpack of what was written), not modelled; the size clause is observed on the implementation (length of Pack() of what a UDP writer received, TC, record counts against the TCP reply), the model stops before SizeAndDo / Scrub",
     "client location and echoed ECS option are oracles observed per backend",
+    "history cases: the serve model has no cache; it is evaluated per query, so a reply served from the cache must be the reply the "
+    "cache-free model computes (C12: the cache is invisible); a cached answer keeps the owner-name case of the first asker, so all "
+    "queries of one question use the same name bytes; whether a query was served from the cache is read from the DNS_cache.hit "
+    "counter and only used for the statistics",
 ]
 ASSUMPTIONS = ["one question per message"]
 
@@ -47,6 +60,8 @@ def nontrivial(c):
             u = (q.get("udpobs") or {}).get("cdb")
             if u:
                 k += [u["limit"], u["tc"], 0 <= u["limit"] - u["len"] <= 24]
+            if c.get("cache"):
+                k += ["cache-hit" if (q.get("cache_hit") or {}).get("cdb") else "cache-miss"]
             keys.append(k)
     return keys or None
 
@@ -62,7 +77,17 @@ def shrink_candidates(c):
 
 
 def _shrink_candidates(c):
-    return shrink_file(c)
+    yield from shrink_file(c)
+    # history cases: a shorter warm-up (the judged queries keep their order behind it)
+    w = c.get("warmup") or []
+    if w:
+        h = len(w) // 2
+        if h:
+            yield dict(c, warmup=w[:h])
+            yield dict(c, warmup=w[h:])
+        if len(w) <= 6:
+            for i in range(len(w)):
+                yield dict(c, warmup=w[:i] + w[i + 1:])
 
 
 def known_finding(c, findings):
